@@ -97,6 +97,7 @@ func writeSVG(wg *sync.WaitGroup, path, lineStyle string) (chan<- []*sdf.Line2, 
 
 	wg.Add(1)
 	go func() {
+		simYield("render.writeSVG.start", 0)
 		defer wg.Done()
 		for ls := range c {
 			simYield("render.writeSVG", uint64(len(ls)))
